@@ -66,6 +66,8 @@ def cases(tier, seed, rnd):
         cs.append(dict(k='expr-reuse', name=v))
     for v in EMPTY_SET:
         cs.append(dict(k='empty-set', name=v))
+    for v in CALLER_LIST:
+        cs.append(dict(k='caller-list', name=v))
     return cs
 
 
@@ -78,6 +80,8 @@ def run_case(case, ses):
         return run_expr_reuse(case, ses)
     if case['k'] == 'empty-set':
         return run_empty_set(case, ses)
+    if case['k'] == 'caller-list':
+        return run_caller_list(case, ses)
     return run_dro(case, ses)
 
 
@@ -248,6 +252,79 @@ def run_empty_set(case, ses):
         finding(ses, 'C09:empty-set:%s' % v, 'model %s: a set description without constraints after another set was compiled: '
                 'optimum %s (%s), from scratch: %s (%s)' % (v, res[True][1], res[True][0], res[False][1], res[False][0]),
                 dict(k='empty-set', name=v), 'rsv.props.c09:replay')
+
+
+# ------------------------------------------------------------------ a caller-owned LIST of set constraints, changed afterwards
+CALLER_LIST = ['ro-forall-replace', 'ro-forall-append', 'ro-minmax-append', 'dro-forall-replace', 'dro-forall-append',
+               'dro-forall-append-after-formulation']
+
+
+def caller_list_model(variant, mutated):
+    """The set of a robust constraint / objective is what the list held WHEN IT WAS GIVEN to forall() / minmax(): the caller
+    re-uses the list object afterwards (replaces an item, appends a row - e.g. to build the set of the next constraint).
+    mutated=False: the same model with the list never touched."""
+    from rsome import ro, dro
+    front, call, how = variant.split('-', 2)
+    if front == 'ro':
+        m = ro.Model()
+        x = m.dvar(2)
+        t = m.dvar()
+        z = m.rvar(2)
+    else:
+        m = dro.Model(2)
+        x = m.dvar(2)
+        t = m.dvar()
+        z = m.rvar(2)
+        F = m.ambiguity()
+        F.suppset(z >= -4, z <= 4)
+        pr = m.p
+        F.probset(pr == 0.5)
+    S = [z >= 0, z <= 2]
+    if call == 'minmax':
+        m.minmax(t + x @ z, S)
+        m.st(t >= 1 - x.sum())
+    else:
+        if front == 'ro':
+            m.min(t)
+        else:
+            m.minsup(t, F)
+        m.st((x @ z + 1 - x.sum() <= t).forall(S))
+    m.st(x >= 0.5, x <= 3)
+    if how.endswith('after-formulation'):
+        m.do_math()
+    if mutated:
+        if how == 'replace':
+            S[1] = (z <= 3.5)
+        else:
+            S.append(z[0] + z[1] <= 1)
+        # the list is used again for another, harmless constraint
+        m.st((t >= z[0] - 100).forall(S))
+    else:
+        m.st((t >= z[0] - 100).forall([z >= 0, z <= 2]))
+    return m
+
+
+def run_caller_list(case, ses):
+    from ..cprog import CProg
+    v = case['name']
+    res = {}
+    for mutated in (False, True):
+        with quiet():
+            P = CProg(caller_list_model(v, mutated).do_math())
+        vs = P.z3vars('a' if mutated else 'b')
+        res[mutated] = ses.optimum(P.constraints(vs), P.obj_term(vs), label='caller-list/%s/%s' % (v, mutated))
+        ses.stats.programs += 1
+    ses.stats.obligations += 1
+    ses.stats.kinds['optimum-vs-untouched-list'] = ses.stats.kinds.get('optimum-vs-untouched-list', 0) + 1
+    if 'unknown' in (res[False][0], res[True][0]):
+        ses.stats.undecided += 1
+    elif res[False] == res[True]:
+        ses.stats.discharged += 1
+        ses.stats.nontrivial.add('caller-list:' + v)
+    else:
+        finding(ses, 'C09:caller-list:%s' % v, 'model %s: the caller changed its list of set constraints AFTER handing it to '
+                'forall() / minmax(): optimum %s (%s), with the list left alone: %s (%s)'
+                % (v, res[True][1], res[True][0], res[False][1], res[False][0]), dict(k='caller-list', name=v), 'rsv.props.c09:replay')
 
 
 # ------------------------------------------------------------------ one expression OBJECT used in two constructs
@@ -623,6 +700,20 @@ def replay(data, verbose=False):
                     vals[earlier] = 'no solution (%s)' % str(e)[:60]
         if verbose:
             print('real solve(): from scratch %r ; after another set was compiled %r' % (vals[False], vals[True]))
+        a, b = vals[False], vals[True]
+        return isinstance(a, str) != isinstance(b, str) or (not isinstance(a, str) and abs(a - b) > 1e-6 * (1 + abs(a)))
+    if data.get('k') == 'caller-list':
+        vals = {}
+        for mutated in (False, True):
+            with quiet():
+                mm = caller_list_model(data['name'], mutated)
+                try:
+                    mm.solve(display=False)
+                    vals[mutated] = mm.get()
+                except Exception as e:  # noqa
+                    vals[mutated] = 'no solution (%s)' % str(e)[:60]
+        if verbose:
+            print('real solve(): list left alone %r ; list changed after the call %r' % (vals[False], vals[True]))
         a, b = vals[False], vals[True]
         return isinstance(a, str) != isinstance(b, str) or (not isinstance(a, str) and abs(a - b) > 1e-6 * (1 + abs(a)))
     if data.get('k') == 'expr-reuse':
